@@ -160,6 +160,19 @@ func hashEqualEdges(fn *ssa.Function) (eq, neq map[edge]bool, sites []*ssa.If) {
 	return
 }
 
+// hashEqualAcc: the edge on which Digest.Sum(..) equals the chunk's ID.
+func hashEqualAcc(iff *ssa.If) (bool, bool) {
+	isSum := originHas("call:(desync.HashAlgorithm).Sum#0")
+	isID := func(v ssa.Value) bool {
+		return hasOrigin(v, func(o string) bool { return o == "field:IndexChunk.ID" || o == "elem:field:IndexChunk.ID" })
+	}
+	eqOnTrue, ok := equalEdge(iff, isSum, isID)
+	if !ok {
+		return false, false
+	}
+	return eqOnTrue, !eqOnTrue
+}
+
 // rehashReads checks that the buffer hashed by Digest.Sum in fn was filled by ReadAt at the
 // chunk's Start and allocated with the chunk's Size.
 func (c *Ctx) rehashReads(fn *ssa.Function, key string) {
@@ -641,6 +654,10 @@ func (c *Ctx) validateRehashAll(prefix string) {
 		return
 	}
 	eq, _, sites := hashEqualEdges(fn)
+	// the comparison may sit behind a helper whose nil result is reached only through the equal edge
+	for e := range acceptingEdgesDeep(fn, hashEqualAcc, 0) {
+		eq[e] = true
+	}
 	c.verdict(len(sites) > 0 && bodyMustPass(header, body, eq), key+":every-chunk", lastIf(header).Pos(), "every iteration passes the hash-equal edge", "an iteration can continue although the chunk's hash was not found equal to its ID")
 	okRet := true
 	n := 0
